@@ -4,7 +4,7 @@
 -/
 import GormModel.Model.CallbackExec
 import GormModel.Lemmas.CallbackBuilder
-namespace Gorm
+namespace Gorm.Reent
 namespace ExecL
 
 /-! ### `performAll` -/
@@ -137,4 +137,4 @@ theorem executeIndexed_eq_snapshot (r : CbRepairs) (script : Script)
       rfl
 
 end ExecL
-end Gorm
+end Gorm.Reent
